@@ -6,6 +6,7 @@ import Swat4.Lemmas.BackedSys
 import Swat4.Lemmas.BackedStrict
 import Swat4.Lemmas.MarkKept
 import Swat4.Lemmas.BackedPop
+import Swat4.Drv.UCRun
 /-!
 # C16 — No crash leaves a server waiting forever for a probe that does not exist
 
@@ -546,18 +547,19 @@ theorem pop_strict_held (s : AbsState) (now : Int) (n : Int) (hb : BackedStrict 
   ⟨popMany_strict s now n hb hinj, Strict.popMany_servers s now n, (popMany_covers s now n hinj).2.2⟩
 
 open Strict in
-/-- **a fault-free prober batch restores the invariant.**  `Strict.proberBatch n oc order` mirrors the driver's `pop`
-client (`Drv/UCRun.lean`: `PopMany(n)`, `sortBatch`, `probeAll`): pop, then `probeserver.Execute` for every popped probe
-in turn, each to completion.  From a `BackedStrict` store (rows well keyed with valid addresses, distinct queue ids,
-valid probe addresses), for every `n`, every clock, every outcome per probe and every order of the batch, the store
-after the batch is `BackedStrict` (hence `Backed`) and well keyed.  So the holder-loss finding
+/-- **a fault-free prober batch restores the invariant.**  `UC.proberRunWith n oc order`
+(`Model/UseCases/ProberRun.lean`) is the Model's prober runner: `PopMany(n)`, then `probeserver.Execute` for every popped
+probe in turn, each to completion; the program the driver runs for a `pop` client is its instance `UC.proberRun`
+(`runner_is_model`, `runner_complete_backed` below).  From a `BackedStrict` store (rows well keyed with valid addresses,
+distinct queue ids, valid probe addresses), for every `n`, every clock, every outcome per probe and every order of the
+batch, the store after the batch is `BackedStrict` (hence `Backed`) and well keyed.  So the holder-loss finding
 (`C16_holder_counterexample`) needs a holder that stops early or takes an error branch — the batch itself, however
 large and in whatever order, repairs every mark it unbacked. -/
 theorem pop_complete_backed (n : Int) (oc : Probe → Option ProbeResult) (order : List Probe → List Probe)
     (horder : ∀ ps p, p ∈ order ps ↔ p ∈ ps) (s : AbsState) (now : Int)
     (hb : BackedStrict s) (hk : KeyedOk s) (hinj : IdInj s.queue) (hq : ∀ q ∈ s.queue, q.probe.addr.PortOk) :
-    BackedStrict ((proberBatch n oc order).run s now).1 ∧ Backed ((proberBatch n oc order).run s now).1 ∧
-    KeyedOk ((proberBatch n oc order).run s now).1 :=
+    BackedStrict ((UC.proberRunWith n oc order).run s now).1 ∧ Backed ((UC.proberRunWith n oc order).run s now).1 ∧
+    KeyedOk ((UC.proberRunWith n oc order).run s now).1 :=
   have h := Strict.pop_complete_backed n oc order horder s now hb hk hinj hq
   ⟨h.1, h.1.backed, h.2⟩
 
@@ -566,7 +568,7 @@ batch pops the probe and — the probe failing with budget left — re-queues it
 example : Strict.BackedStrict W.staleState ∧ KeyedOk W.staleState ∧ Strict.IdInj W.staleState.queue ∧
     (∀ q ∈ W.staleState.queue, q.probe.addr.PortOk) ∧
     (W.staleState.popMany 1000 5).2.1 = [W.probe] ∧
-    ((Strict.proberBatch 5 (fun _ => none) id).run W.staleState 1000).1.queue.map (fun q => (q.probe.retries, q.expires)) = [(1, none)] := by
+    ((UC.proberRunWith 5 (fun _ => none) id).run W.staleState 1000).1.queue.map (fun q => (q.probe.retries, q.expires)) = [(1, none)] := by
   refine ⟨?_, ?_, ?_, ?_, by decide, by decide⟩
   · rw [← Strict.backedStrictB_iff]; decide
   · intro k row h
@@ -577,6 +579,45 @@ example : Strict.BackedStrict W.staleState ∧ KeyedOk W.staleState ∧ Strict.I
     have : q = ⟨0, W.probe, 0, none⟩ := by simpa [W.staleState] using hq
     subst this
     unfold Addr.PortOk; decide
+
+/-- **the tie between the driver and the Model's runner** (audit record for reviewer item "driver semantics outside
+Model", C16).  The program the correspondence run executes for a harness client `pop|<n>|<outcome>`
+(`Drv/UCRun.lean: USpec.prog`) IS `UC.proberRun n outcome` — `PopMany(n)`, the batch in `UC.sortBatch` order,
+`UC.probe` for each — followed only by the rendering of its report (a `pure`, no storage call); and `UC.proberRun` is
+`UC.proberRunWith` at the constant outcome and that order.  Both equalities are definitional: the driver contains no
+runner of its own any more. -/
+theorem runner_is_model (cfg : Drv.UCfg) (draws : Nat → Int) (n : Int) (outcome : Option ProbeResult) :
+    (Drv.USpec.pop n outcome).prog cfg draws =
+      (UC.proberRun n outcome).bind (fun r => pure (Drv.renderProberReport r)) ∧
+    UC.proberRun n outcome = UC.proberRunWith n (fun _ => outcome) UC.sortBatch :=
+  ⟨rfl, rfl⟩
+
+/-- rendering adds no storage call: the state a `pop` client of the driver ends in is the state of `UC.proberRun` -/
+theorem runner_state (cfg : Drv.UCfg) (draws : Nat → Int) (n : Int) (outcome : Option ProbeResult) (s : AbsState) (now : Int) :
+    (((Drv.USpec.pop n outcome).prog cfg draws).run s now).1 = ((UC.proberRun n outcome).run s now).1 := by
+  rw [(runner_is_model cfg draws n outcome).1, Prog.run_bind]
+  rfl
+
+open Strict in
+/-- **`pop_complete_backed` about what the driver actually runs.**  The program of the driver's `pop` client — for every
+batch size, every (single) network outcome, every clock —, run to completion without a fault from a `BackedStrict` store
+(hypotheses as in `pop_complete_backed`), ends `BackedStrict`, `Backed` and well keyed.  `UC.sortBatch` is a
+reordering (`Strict.mem_sortBatch`), so `pop_complete_backed` applies. -/
+theorem runner_complete_backed (cfg : Drv.UCfg) (draws : Nat → Int) (n : Int) (outcome : Option ProbeResult)
+    (s : AbsState) (now : Int)
+    (hb : BackedStrict s) (hk : KeyedOk s) (hinj : IdInj s.queue) (hq : ∀ q ∈ s.queue, q.probe.addr.PortOk) :
+    BackedStrict (((Drv.USpec.pop n outcome).prog cfg draws).run s now).1 ∧
+    Backed (((Drv.USpec.pop n outcome).prog cfg draws).run s now).1 ∧
+    KeyedOk (((Drv.USpec.pop n outcome).prog cfg draws).run s now).1 := by
+  rw [runner_state]
+  exact pop_complete_backed n (fun _ => outcome) UC.sortBatch mem_sortBatch s now hb hk hinj hq
+
+/-- non-vacuity of `runner_complete_backed` (hypotheses: the `example` after `pop_complete_backed`): on `W.staleState` the
+driver's `pop|5|fail` client pops the one probe, fails it with budget left and re-queues it without expiry, and reports
+`popped:1:0+retried` -/
+example : (((Drv.USpec.pop 5 none).prog {} fun _ => 0).run W.staleState 1000).2 = "popped:1:0+retried" ∧
+    (((Drv.USpec.pop 5 none).prog {} fun _ => 0).run W.staleState 1000).1.queue.map (fun q => (q.probe.retries, q.expires)) = [(1, none)] := by
+  decide
 
 
 /-! ## the hypotheses are needed; a third way to lose the backing -/
